@@ -367,10 +367,14 @@ def all_spans(d, acc):
         all_spans(ch, acc)
 
 
-def cargo_json(dirp, target, sub='check'):
+def cargo_json(dirp, target, sub='check', nightly_flags=None):
     env = env_base()
     env['CARGO_TARGET_DIR'] = target
-    return subprocess.run(['cargo', sub, '--offline', '--message-format=json', '-q'], cwd=dirp, env=env, stdout=subprocess.PIPE, stderr=subprocess.PIPE, text=True)
+    cmd = ['cargo', sub, '--offline', '--message-format=json', '-q']
+    if nightly_flags:
+        cmd = ['cargo', '+nightly', sub, '--offline', '--message-format=json', '-q']
+        env['RUSTFLAGS'] = nightly_flags
+    return subprocess.run(cmd, cwd=dirp, env=env, stdout=subprocess.PIPE, stderr=subprocess.PIPE, text=True)
 
 
 def errors_by_item(p, ranges, srcname, pkg):
@@ -422,6 +426,17 @@ def run(part, tier):
     if other and hits:
         viols.append({'desc': 'C18;const;unattributed', 'what': '; '.join(other[:3]), 'stable': True})
     ct_ok = len(items) + len(extras) - len(hits)
+    # 1b. the same items under the const evaluator's EXTRA undefined-behaviour checks (nightly, -Zextra-const-ub-checks: validity of
+    # every reference and value at every typed copy, not only where stable const evaluation must look): a const fn that forms a
+    # dangling or over-long reference transiently is accepted by 1. and rejected here
+    strict_hits = {}
+    if not hits and not other:
+        pn = cargo_json(d, os.path.join(BASE, 'target', 'corpus18n'), 'check', nightly_flags='-Zextra-const-ub-checks')
+        strict_hits, strict_other = errors_by_item(pn, ranges, 'src/main.rs', 'c18')
+        for it, msgs in sorted(strict_hits.items()):
+            viols.append({'desc': f'C18;const-strict;{it}', 'what': f'the const evaluator with extra UB checks (-Zextra-const-ub-checks) rejects this use of the const API: {msgs[:2]}', 'stable': True})
+        if strict_other and not strict_hits:
+            raise Machinery('corpus crate c18 does not compile on nightly with -Zextra-const-ub-checks, errors not attributable to a const item: ' + '; '.join(strict_other[:4]))
     # 2. run-time agreement
     rt_compared, rt_bad = 0, 0
     if not hits and not other:
@@ -454,7 +469,7 @@ def run(part, tier):
     samples.append({'case': FAIL_ITEMS[0][0], 'must_fail_item': FAIL_ITEMS[0][1]})
     result = {
         'evaluations': n_items + len(FAIL_ITEMS), 'distinct_nontrivial': sum(1 for n, e in items if not re.search(r'_0(_|$)', n)) + len(extras), 'programs': n_items + len(FAIL_ITEMS),
-        'outcomes': {'const-evaluated': ct_ok, 'const-eval-error': len(hits), 'must-fail-rejected': sum(1 for _, n in franges if n in fhits)},
+        'outcomes': {'const-evaluated': ct_ok, 'const-eval-error': len(hits), 'const-eval-error-under-extra-ub-checks': len(strict_hits), 'must-fail-rejected': sum(1 for _, n in franges if n in fhits)},
         'runtime_compared': rt_compared, 'runtime_mismatches': rt_bad, 'const_fns_without_template': gaps, 'samples': samples, 'wall_s': round(time.time() - t0, 2),
     }
     return {'violations': viols, 'result': result, 'substrates': {'rustc const evaluator': subprocess.run(['rustc', '--version'], capture_output=True, text=True).stdout.strip()}}
